@@ -120,6 +120,7 @@ macro_rules! chk {
 #[cfg(not(kani))]
 pub fn note_fail(m: &str) {
     if assume_failed().is_none() && !exhausted() {
+        eprintln!("    ^ FAILS: {}", m);
         native::FAILS.with(|v| v.borrow_mut().push(m.to_string()));
     }
 }
